@@ -14,7 +14,7 @@ RULE = ('simulated sessions (as C09): 1-3 boards (quick) / 1-6 (thorough), each 
         'json.load(output file) equals the document computed by the independent models on number and order of boards, '
         'board_id, dealer, vulnerability, deal, bid_history, contract, declarer, play_history (leader + 4 cards per '
         'trick), taken_trick (declarer\'s side), scores (model scorer; NS = -EW; passed out => null play/tricks, 0/0); '
-        'metamorphic: the file written under the second schedule is byte-identical. evaluations = sessions run. '
+        'metamorphic: the file written under the second schedule is byte-identical. A few sessions per run (more in the thorough tier) are played once more on REAL threads over REAL loopback sockets (only the server\'s 1 s pauses shortened): same oracles, byte-identical log and identical transcripts required; a wall-clock safety net there means inconclusive. evaluations = sessions run. '
         'Non-trivial = session with a played board in which declarer\'s side is EW, or the contract is doubled/redoubled, '
         'or dummy leads a trick, run under a non-sequential schedule; distinct by scenario hash.')
 ASSUMPTIONS = ['simulation kernel fidelity (DESIGN.md 4.3/4.5)', 'fields the statement does not mention (players, score_type, dda) belong to C12']
@@ -23,10 +23,16 @@ ASSUMPTIONS = ['simulation kernel fidelity (DESIGN.md 4.3/4.5)', 'fields the sta
 def plan(tier):
     n, per = (16, 110) if tier == 'quick' else (16, 3000)
     mb = 3 if tier == 'quick' else 6
-    return [{'kind': 'sessions', 'n': per, 'max_boards': mb, 'play_prob': 5} for i in range(n)]
+    sh = [{'kind': 'sessions', 'n': per, 'max_boards': mb, 'play_prob': 5} for i in range(n)]
+    # the same scenarios once more on real threads + real loopback sockets (differential against the simulator, and the
+    # oracles in their own right)
+    nr, perr = (4, 4) if tier == 'quick' else (16, 40)
+    return sh + [{'kind': 'real-sockets', 'n': perr, 'max_boards': 2, 'play_prob': 2} for _ in range(nr)]
 
 
-def check_session(scenario, schedule, stats=None, schedule2=None, **kw):
+def check_session(scenario, schedule, stats=None, schedule2=None, real_sockets=False, **kw):
+    if real_sockets:
+        return check_real(scenario, stats)
     r = SE.run_case(scenario, schedule)
     SE.first_problem(SE.completion_problems(scenario, r), scenario, schedule, r)
     probs = SE.log_problems(scenario, r)
@@ -49,7 +55,23 @@ def check_session(scenario, schedule, stats=None, schedule2=None, **kw):
             stats.nt(scenario, {'scenario': SE.brief(scenario), 'log_prefix': r.output_text[:200]} if len(scenario['boards']) == 1 else None)
 
 
+def check_real(scenario, stats=None):
+    sim = SE.run_case(scenario, {'kind': 'sequential'})
+    SE.first_problem(SE.completion_problems(scenario, sim), scenario, {'kind': 'sequential'}, sim)
+    probs = SE.real_session_problems(scenario, sim)
+    if probs:
+        clause, detail = probs[0]
+        raise Violation(clause, SE.case_of(scenario, {'kind': 'sequential'}, sim, {'real_sockets': True}), detail)
+    if stats is not None:
+        stats.evaluated()
+        stats.cls('sessions repeated on real threads + loopback sockets (byte-identical log, same transcripts)')
+
+
 def run_shard(spec, seed, tier, stats):
+    if spec['kind'] == 'real-sockets':
+        v = run_hypothesis(lambda scenario: check_real(scenario, stats), {'scenario': SE.SCENARIO(1, spec['max_boards'], spec['play_prob'])},
+                           seed, spec['n'], False)
+        return [v] if v else []
     v = run_hypothesis(lambda scenario, schedule, schedule2: check_session(scenario, schedule, stats, schedule2=schedule2),
                        {'scenario': SE.SCENARIO(1, spec['max_boards'], spec['play_prob']), 'schedule': SE.SCHEDULE(),
                         'schedule2': SE.SCHEDULE()}, seed, spec['n'], tier == 'thorough')
